@@ -474,7 +474,7 @@ class Gen:
     STRS = ["'s'", "''", "'a b'", "'\\n'", "'\\\\'", "'\\''", "'\\x41\\101\\u00e9'", "'a\\qb'", "'@0@'",
             "'é€'", "'#no comment'", "'\\U0001F600'", "'\\7\\78\\777'", "'\\xg'", "'a\\\\'", "'\\N{DIGIT ONE}'",
             "f's @x@'", "f''", "'''m'''", "'''a\nb'''", "''''''", "'''it's'''", "f'''x\n\ny'''", "'''\\'''",
-            "'''a''b'''", "'''\n'''"]
+            "'''a''b'''", "'''\n'''", "'a\nb'", "f'\n'", "f'p\n\nq'"]
     NUMS = ['0', '1', '42', '0x1F', '0XaB', '0b101', '0B1', '0o17', '0O7', '007', '0b', '0x', '1_0', '10a', '0b12',
             '123456789012345678901234567890']
     BIN = ['+', '-', '*', '/', '%', '==', '!=', '<', '<=', '>', '>=', 'and', 'or', 'in', 'not in', 'not  in',
@@ -698,7 +698,9 @@ def targeted(rng) -> str:
         s = 'a not' + tr + 'in b'
         return ('(' + s + ')\n') if par else ('x = ' + s + '\n')
     if k == 2:   # newline inside single-quoted string, then positions
-        return rng.choice(["x = 'a\nb'\n", "f('a\n\nb', [1])\n", "y = f'\n'\nz = [1, 2]\n"]) + \
+        return rng.choice(["x = 'a\nb'\n", "f('a\n\nb', [1])\n", "y = f'\n'\nz = [1, 2]\n", "f(f'a\nb', [1])\n",
+                           "x = [f'\n', [1, 2], g(3)]\n", "g('a\nb').h([1]) # c\n",
+                           "[f'\n\n'] + k(f'q\n', 'r\ns')\n"]) + \
             rng.choice(['', 'g(1)\n', 'a = [\n 1]\n', '"', ')', 'if\n'])
     if k == 3:   # multi-line strings and eof / error positions
         return rng.choice(["x = '''a\nb'''", "f('''a\nb'''", "'''\n\n''' )", "a = [f'''x\ny''', '''\n''']\nb = c(\n'''q\n''', d)\n",
@@ -1280,6 +1282,12 @@ def search(ctx: Ctx, disagreements: T.List[dict]) -> None:
             hit = hit or len(ctx.violations) > before
         return hit
 
+    # every input on which model and implementation differ is first judged itself by the round-trip, span /
+    # token-position and located-error oracles
+    for d in disagreements:
+        s = d.get('input')
+        if isinstance(s, str) and probe(s, 'disagreeing-input'):
+            return
     for d in disagreements[:40]:
         s = d.get('input')
         if not isinstance(s, str):
